@@ -72,6 +72,125 @@ impl Default for WorldOpts {
     }
 }
 
+/// Random small JSON schema from the fragment C03 names: numeric ranges (inclusive / exclusive bounds
+/// sitting on or next to multiples), multipleOf, string patterns with length bounds, enums, arrays with
+/// item bounds, optional and required properties, anyOf. Many combinations are unsatisfiable; those the
+/// compiler rejects are not used (the caller builds every candidate), what it accepts has to be free of
+/// dead ends.
+pub fn random_json_schema(rng: &mut Rng) -> String {
+    fn num(rng: &mut Rng, integer: bool) -> String {
+        let mut parts = vec![format!("\"type\":\"{}\"", if integer { "integer" } else { "number" })];
+        let m: i64 = *rng.pick(&[0i64, 0, 2, 3, 4, 5, 6, 7, 10]);
+        // bounds on / next to a multiple, narrow ranges
+        let base = if m > 0 { m * (rng.below(9) as i64 - 3) } else { rng.below(60) as i64 - 20 };
+        let lo = base + *rng.pick(&[-1i64, 0, 0, 1]);
+        let hi = lo + *rng.pick(&[0i64, 1, 2, 3, 4, 6, 9, 25, 200]);
+        let frac = |rng: &mut Rng, v: i64| {
+            if !integer && rng.chance(0.3) {
+                format!("{}.{}", v, rng.pick(&["5", "25", "0", "125"]))
+            } else {
+                v.to_string()
+            }
+        };
+        match rng.below(4) {
+            0 => {}
+            1 => parts.push(format!("\"minimum\":{}", frac(rng, lo))),
+            _ => parts.push(format!(
+                "\"{}\":{}",
+                if rng.chance(0.5) { "minimum" } else { "exclusiveMinimum" },
+                frac(rng, lo)
+            )),
+        }
+        match rng.below(4) {
+            0 => {}
+            1 => parts.push(format!("\"maximum\":{}", frac(rng, hi))),
+            _ => parts.push(format!(
+                "\"{}\":{}",
+                if rng.chance(0.5) { "maximum" } else { "exclusiveMaximum" },
+                frac(rng, hi)
+            )),
+        }
+        if m > 0 {
+            if !integer && rng.chance(0.3) {
+                parts.push(format!("\"multipleOf\":{}", rng.pick(&["0.5", "0.25", "2.5", "0.1"])));
+            } else {
+                parts.push(format!("\"multipleOf\":{m}"));
+            }
+        }
+        format!("{{{}}}", parts.join(","))
+    }
+    fn string(rng: &mut Rng) -> String {
+        let mut parts = vec!["\"type\":\"string\"".to_string()];
+        if rng.chance(0.6) {
+            let p = *rng.pick(&[
+                "^[ab]{1,3}$", "^[a-z]+$", "^x?y{2}$", "^(ab)*$", "^[0-9]{2,4}$", "^a[bc]*d$", "^(foo|ba+r)$", "^[A-Z][a-z]{0,2}$", "^.{2,5}$", "^[^x]*x$",
+            ]);
+            parts.push(format!("\"pattern\":{:?}", p));
+        } else if rng.chance(0.2) {
+            parts.push(format!("\"format\":\"{}\"", rng.pick(&["date", "time", "uuid", "ipv4"])));
+        }
+        if rng.chance(0.5) {
+            parts.push(format!("\"minLength\":{}", rng.below(7)));
+        }
+        if rng.chance(0.5) {
+            parts.push(format!("\"maxLength\":{}", rng.below(9)));
+        }
+        format!("{{{}}}", parts.join(","))
+    }
+    fn value(rng: &mut Rng, depth: usize) -> String {
+        match rng.below(if depth >= 2 { 7 } else { 10 }) {
+            0..=2 => num(rng, true),
+            3 => num(rng, false),
+            4..=5 => string(rng),
+            6 => (*rng.pick(&[
+                "{\"enum\":[\"a\",\"ab\",1,null]}",
+                "{\"const\":\"k\"}",
+                "{\"type\":\"boolean\"}",
+                "{\"enum\":[10,100,1000]}",
+            ]))
+            .to_string(),
+            7 => {
+                let lo = rng.below(3);
+                let hi = lo + rng.below(3);
+                format!("{{\"type\":\"array\",\"items\":{},\"minItems\":{lo},\"maxItems\":{hi}}}", value(rng, depth + 1))
+            }
+            8 => format!("{{\"anyOf\":[{},{}]}}", value(rng, depth + 1), value(rng, depth + 1)),
+            _ => object(rng, depth + 1),
+        }
+    }
+    fn object(rng: &mut Rng, depth: usize) -> String {
+        let n = rng.range(1, 3);
+        let names = ["a", "b", "c", "code", "n"];
+        let mut props = vec![];
+        let mut req = vec![];
+        for i in 0..n {
+            let name = names[(i + rng.below(2)) % names.len()];
+            if props.iter().any(|p: &String| p.starts_with(&format!("\"{name}\":"))) {
+                continue;
+            }
+            props.push(format!("\"{name}\":{}", value(rng, depth)));
+            if rng.chance(0.6) {
+                req.push(format!("\"{name}\""));
+            }
+        }
+        format!(
+            "{{\"type\":\"object\",\"properties\":{{{}}},\"required\":[{}],\"additionalProperties\":false}}",
+            props.join(","),
+            req.join(",")
+        )
+    }
+    let body = object(rng, 0);
+    if rng.chance(0.4) {
+        // compact output: no flexible whitespace to hide in
+        format!(
+            "{{\"x-guidance\":{{\"whitespace_flexible\":false,\"item_separator\":\",\",\"key_separator\":\":\"}},{}",
+            &body[1..]
+        )
+    } else {
+        body
+    }
+}
+
 /// Random parametric Lark grammar (rules parameterised by a 64-bit value, docs/parametric.md).
 /// `hostile == false`: syntactically valid, every bit index / range / value inside its documented
 /// domain but biased to the edges of it (bit 63, ranges ending at 64, all-ones values).
@@ -298,6 +417,8 @@ pub fn pick_entry<'a>(rng: &mut Rng, o: &WorldOpts) -> &'a Entry {
     let cands: Vec<&Entry> = corpus::CORPUS
         .iter()
         .filter(|e| o.want_tags.iter().all(|t| e.has(t)) && !o.avoid_tags.iter().any(|t| e.has(t)))
+        // stop= / suffix= lexemes (no rollback, hidden bytes): only where asked for
+        .filter(|e| !e.has("stopl") || o.want_tags.contains(&"stopl"))
         .collect();
     assert!(!cands.is_empty());
     if !o.prefer_tags.is_empty() && rng.chance(0.7) {
@@ -350,8 +471,18 @@ pub fn gen_world(rng: &mut Rng, o: &WorldOpts) -> (WorldSpec, bool) {
     } else {
         None
     };
+    let use_json = !use_rand && o.allow_random_cfg && o.want_tags.iter().all(|t| *t == "prod") && rng.chance(0.12);
+    let json_text = if use_json {
+        (0..6)
+            .map(|_| random_json_schema(rng))
+            .find(|t| grammar_constructs(GKind::Json, t))
+    } else {
+        None
+    };
     let (gid, gkind, gtext0, _tokref) = if use_rand {
         ("rand_cfg".to_string(), GKind::Lark, random_cfg(rng, o.swallowing_terminals), false)
+    } else if let Some(t) = json_text {
+        ("rand_json".to_string(), GKind::Json, t, false)
     } else if let Some(t) = param_text {
         ("rand_param".to_string(), GKind::Lark, t, false)
     } else {
@@ -396,6 +527,7 @@ pub fn gen_world(rng: &mut Rng, o: &WorldOpts) -> (WorldSpec, bool) {
     };
     let grammar_text = instantiate_grammar_text(&gtext0, &vocab);
     let productive = use_rand
+        || gid == "rand_json"
         || corpus::by_id(&gid)
             .map(|e| e.has("prod"))
             .unwrap_or(false);
@@ -410,6 +542,7 @@ pub fn gen_world(rng: &mut Rng, o: &WorldOpts) -> (WorldSpec, bool) {
             limits,
             fresh_rebuild: rng.chance(0.15),
             max_tokens: None,
+            prompt: None,
         },
         productive,
     )
@@ -928,9 +1061,114 @@ fn gen_c11_constraint(rng: &mut Rng, seed: u64, index: u64, long: bool) -> Scena
     sc
 }
 
+/// Engines started with a prompt (TokenParser::process_prompt heals the prompt's tail: those bytes
+/// become a prefix the first tokens have to spell again): read-only queries interleaved with the
+/// commits that walk through the healed prefix must leave no trace (fresh engine = same prompt,
+/// same tokens, no queries).
+fn gen_c11_prompt(rng: &mut Rng, seed: u64, index: u64, long: bool) -> Scenario {
+    let mut o = WorldOpts::default();
+    o.avoid_tags = vec!["heavy", "tokref"];
+    o.canonical = Some(true);
+    o.vocab_kinds = vec!["synth", "synth", "bpe"];
+    let (mut world, productive) = gen_world(rng, &o);
+    // a prompt whose tail is a token that longer tokens extend: a few multi-byte vocabulary words
+    let multi: Vec<&String> = world.vocab.words.iter().filter(|w| w.len() >= 4 && !w.starts_with("ff") && !w.starts_with("f5")).collect();
+    let mut prompt = String::new();
+    if !multi.is_empty() {
+        for _ in 0..rng.range(1, 3) {
+            prompt.push_str(multi[rng.below(multi.len())]);
+        }
+        if rng.chance(0.5) {
+            // end inside a word: the last token is a proper prefix of a vocabulary word
+            let w = multi[rng.below(multi.len())];
+            let k = 2 * rng.range(1, (w.len() / 2).max(1));
+            prompt.push_str(&w[..k.min(w.len())]);
+        }
+    } else {
+        prompt.push_str("6162");
+    }
+    world.prompt = Some(prompt);
+    let mut sc = base("C11", "cache_prompt", seed, index, world, productive);
+    // no rollbacks here: tokens that spell the healed prefix are not in the parser's byte log, so
+    // rolling them back is refused ("rollback: too many bytes") - prompt + rollback is outside C11
+    sc.auto_restart = false;
+    let steps = if long { rng.range(20, 50) } else { rng.range(8, 24) };
+    let mut g = G { rng, ops: vec![] };
+    g.ops.push(Op::New {
+        h: 0,
+        kind: HKind::Matcher,
+        alt: None,
+    });
+    for _ in 0..steps {
+        if g.rng.chance(0.6) {
+            let n = g.rng.range(1, 3);
+            g.perturb(0, n);
+        }
+        if g.rng.chance(0.3) {
+            g.ops.push(Op::ChkFresh { h: 0 });
+        }
+        let p = g.honest();
+        g.ops.push(Op::Commit {
+            h: 0,
+            pick: p,
+            fuel_at: None,
+        });
+        if g.rng.chance(0.5) {
+            g.ops.push(Op::ChkFresh { h: 0 });
+        }
+    }
+    g.ops.push(Op::ChkFresh { h: 0 });
+    sc.tasks = vec![g.ops];
+    sc
+}
+
+/// Lexemes with stop= / suffix= (hidden bytes, no rollback): read-only queries between the commits
+/// must leave no trace here either (fresh engine = same tokens, no queries). Byte vocabulary: every
+/// stop string is one token, so no commit needs backtracking (which a Matcher refuses).
+fn gen_c11_stop_lexeme(rng: &mut Rng, seed: u64, index: u64, long: bool) -> Scenario {
+    let mut o = WorldOpts::default();
+    o.want_tags = vec!["stopl"];
+    o.allow_random_cfg = false;
+    o.vocab_kinds = vec!["byte"];
+    let (world, _) = gen_world(rng, &o);
+    let mut sc = base("C11", "cache_stop_lexeme", seed, index, world, false);
+    sc.auto_restart = false;
+    let steps = if long { rng.range(20, 50) } else { rng.range(8, 24) };
+    let mut g = G { rng, ops: vec![] };
+    g.ops.push(Op::New {
+        h: 0,
+        kind: HKind::Matcher,
+        alt: None,
+    });
+    for _ in 0..steps {
+        if g.rng.chance(0.6) {
+            let n = g.rng.range(1, 3);
+            g.perturb(0, n);
+        }
+        let p = g.honest();
+        g.ops.push(Op::Commit {
+            h: 0,
+            pick: p,
+            fuel_at: None,
+        });
+        if g.rng.chance(0.5) {
+            g.ops.push(Op::ChkFresh { h: 0 });
+        }
+    }
+    g.ops.push(Op::ChkFresh { h: 0 });
+    sc.tasks = vec![g.ops];
+    sc
+}
+
 fn gen_c11(rng: &mut Rng, seed: u64, index: u64, long: bool) -> Scenario {
     if rng.chance(0.15) {
         return gen_c11_constraint(rng, seed, index, long);
+    }
+    if rng.chance(0.06) {
+        return gen_c11_stop_lexeme(rng, seed, index, long);
+    }
+    if rng.chance(0.08) {
+        return gen_c11_prompt(rng, seed, index, long);
     }
     let faulty = rng.chance(0.15);
     let mut o = WorldOpts::default();
@@ -2141,7 +2379,9 @@ pub fn mutate_text(rng: &mut Rng, text: &str, kind: GKind) -> String {
             }
             2 => {
                 // nesting amplification
-                let depth = rng.range(50, 3000);
+                // (the worker thread has an 8 MB stack: a front end that recurses per level without a
+                // depth guard needs tens of thousands of levels to overflow it in a release build)
+                let depth = if rng.chance(0.7) { rng.range(50, 3000) } else { rng.range(20_000, 120_000) };
                 let (open, close) = match kind {
                     GKind::Json => *rng.pick(&[
                         ("{\"items\":", "}"),
@@ -2300,10 +2540,46 @@ fn gen_c20(rng: &mut Rng, seed: u64, index: u64, long: bool) -> Scenario {
     let (mut world, productive) = gen_world(rng, &o);
     let mutated = sub < 3;
     if sub == 3 {
-        // parametric rules with indices / ranges / values at and just beyond their domain
         world.grammar_kind = GKind::Lark;
-        world.grammar_text = random_param_grammar(rng, true);
-        world.grammar_id = "rand_param~hostile".into();
+        if rng.chance(0.7) {
+            // parametric rules with indices / ranges / values at and just beyond their domain
+            world.grammar_text = random_param_grammar(rng, true);
+            world.grammar_id = "rand_param~hostile".into();
+        } else {
+            // token ranges <[lo-hi]> at and just beyond the vocabulary size
+            let nv = world.vocab.words.len() as i64;
+            let edge = |rng: &mut Rng| -> i64 {
+                match rng.below(8) {
+                    0 => nv - 1,
+                    1..=2 => nv,
+                    3 => nv + 1,
+                    4 => 0,
+                    5 => 4294967295,
+                    6 => nv - 2,
+                    _ => rng.below(nv as usize) as i64,
+                }
+            };
+            let n = rng.range(1, 3);
+            let mut alts = vec![];
+            for _ in 0..n {
+                let a = edge(rng);
+                let b = edge(rng);
+                let (lo, hi) = if rng.chance(0.85) { (a.min(b), a.max(b)) } else { (a, b) };
+                let neg = if rng.chance(0.2) { "^" } else { "" };
+                alts.push(match rng.below(3) {
+                    0 => format!("<[{neg}{lo}-{hi}]>"),
+                    1 => format!("<[{neg}{lo}-{hi},{}]>", edge(rng)),
+                    _ => format!("<[{neg}{hi}]>"),
+                });
+            }
+            world.grammar_text = format!(
+                "start: {} ({}) {}\n",
+                rng.pick(&["\"ab\"", "\"a\"", "/[a-c]{1,2}/", ""]),
+                alts.join(" | "),
+                rng.pick(&["\"z\"", "", "/[0-9]/"])
+            );
+            world.grammar_id = "token_range~hostile".into();
+        }
     }
     let mutated = mutated || sub == 3;
     if sub < 3 {
